@@ -187,8 +187,6 @@ def convert_calls_prepare(run, w, RID, with_adds):
         if pol is False and (isinstance(t, ast.Compare) and isinstance(t.ops[0], ast.In) or
                              tv.endswith(".is_formula()") or "is_virtual_column(" in tv):
           continue
-        if pol is True and isinstance(t, ast.Compare) and isinstance(t.ops[0], ast.NotIn):
-          continue
         ok = False
       it_ok = endswith(fn.name(H.strip_passthrough(loop.iter)), "all_columns.items")
       run.ob(RID, fn.qualname, "for col_id, col_obj in table.all_columns.items(): "
@@ -731,8 +729,7 @@ def r4_rebuild(run, w):
     # the conditions, tested after the schema action, under which the rebuild runs
     after = []
     for (t, p) in H.guard_atoms(fn.node, _stmt_of(fn.node, rc)):
-      ifn = [n for n in cfg.nodes if n.kind == "if" and
-             any(x is t for x in ast.walk(n.stmt.test))]
+      ifn = [n for n in cfg.nodes if n.kind == "if" and H._synth_within(t, n.stmt.test)]
       if ifn and all(cfg.dominated_by(ifn[0].id, {m}) for m in mod):
         after.append((t, p, ifn[0]))
     tests = [(t, p, n) for (t, p, n) in after if is_type_test(t) and p is True]
